@@ -39,6 +39,9 @@ typedef struct lltd_iface_state {
 
 static lltd_iface_state *g_iface_states = NULL;
 
+/* Upper bound on recorded Probe/Train observations per interface (see-list size). */
+#define LLTD_SEE_LIST_MAX 1024
+
 #define log_debug(...) lltd_port_log_debug(__VA_ARGS__)
 #define log_warning(...) lltd_port_log_warning(__VA_ARGS__)
 #define log_err(...) lltd_port_log_warning(__VA_ARGS__)
@@ -524,6 +527,9 @@ static void parseProbe(void *inFrame, lltd_iface_state *st, void *iface_ctx) {
 
     bool forUs = compareEthernetAddress(&header->realDestination, &our_mac);
     if (!forUs) {
+        return;
+    }
+    if (st->see_list_count >= LLTD_SEE_LIST_MAX) {
         return;
     }
 
